@@ -199,8 +199,11 @@ PyObj.call_hook = _call_user_fn
 
 
 def _set_init(ex, a, kw):
-  ex.ghost['init_module'] = ex.deref(a[0])
-  ex.ghost['init_mode'] = ex.coerce(a[1], BOOL)
+  bound, ok = bind_call(['module', 'initializing'], a, kw)
+  if not ok or 'module' not in bound or 'initializing' not in bound:
+    raise OutsideSubset('_set_initializing(module, initializing) expected')
+  ex.ghost['init_module'] = ex.deref(bound['module'])
+  ex.ghost['init_mode'] = ex.coerce(bound['initializing'], BOOL)
   return NONEV
 
 
